@@ -57,6 +57,8 @@ Definition payload_names (f : fndef) (e : pay) : list str :=
   | PVar v => match lookup_param v (fn_params f) with Some t => leaf_names t | None => [] end
   | PStruct n => [n]
   | POther => []
+  | PVariant e _ _ => [e]                            (* the payload is a value of the enum *)
+  | PNew _ n => [n]
   end.
 Definition event_roots (p : project) : list str := flat_map (fun f => flat_map (payload_names f) (fn_emits f)) (all_fns p).
 Definition command_roots (p : project) : list str :=
@@ -162,6 +164,10 @@ Definition kf_c07_field_result (p : project) : bool := existsb (fun t => has_res
    name of the built-in table) is never looked for *)
 Definition kf_c07_odd_name (p : project) : bool :=
   existsb (fun d => serde_def d && negb (custom_name (d_name d))) (spec_defs p).
+(* an event payload whose type the tool does not read off the expression: an enum variant (path or struct-variant
+   literal) or a constructor call through a module path *)
+Definition kf_c07_payload_expr (p : project) : bool :=
+  existsb (fun f => existsb (fun e => match e with PVariant _ _ _ => true | PNew (_ :: _) _ => true | _ => false end) (fn_emits f)) (all_fns p).
 (* a serde type defined inside an inline module is never indexed *)
 Definition kf_c07_inline_mod (p : project) : bool := existsb serde_def (nested_defs p).
 
@@ -169,8 +175,10 @@ Definition kf_c07_inline_mod (p : project) : bool := existsb serde_def (nested_d
 Local Open Scope string_scope.
 Definition container_heads : list string := ["Option"; "Result"; "Vec"; "HashMap"; "BTreeMap"; "HashSet"; "BTreeSet"].
 Local Close Scope string_scope.
-Definition ident_char (c : ascii) : bool := is_id_char c && negb (Ascii.eqb c "$"%char) && Nat.ltb (nat_of_ascii c) 128.
-Definition is_ident (s : str) : bool := match s with c :: _ => negb (is_digit c) && forallb ident_char s | [] => false end.
+(* identifiers may contain non-ASCII letters (UTF-8 bytes >= 128); the first character must be one the model classifies *)
+Definition ident_char (c : ascii) : bool := is_id_char c && negb (Ascii.eqb c "$"%char).
+Definition is_ident (s : str) : bool :=
+  match s with c :: _ => negb (is_digit c) && forallb ident_char s && first_classified s | [] => false end.
 (* bare names; generic heads are the std containers with their arities; map keys print no comma *)
 Fixpoint ty_ok (q : cty) : bool :=
   match q with
@@ -209,6 +217,8 @@ Definition in_domain (p : project) : bool :=
                                                         from a call): the tool falls back to the variable's name *)
                                                      | None => is_ident v && negb (custom_name v) end
                                          | PStruct n => is_ident n
+                                         | PVariant e v _ => is_ident e && is_ident v
+                                         | PNew segs n => is_ident n && forallb is_ident segs
                                          | POther => false end) (fn_emits f)) (all_fns p).
 
 (* ---------------- statement level ---------------- *)
